@@ -132,6 +132,12 @@ func GenerateMatrix(r *lp.Rng, index int) *Design {
 		name := "r_" + strings.ToLower(prim)
 		a := att(prim, k+4)
 		mode(res, name, a, k)
+		if (k+modeOff)%3 == 0 && where != "body" && prim != "String" && prim != "Bytes" && (index/3)%2 == 1 {
+			// required AND defaulted, outside the body (the decoders of headers and cookies treat the two together)
+			if d, ok := g.defaultFor(a.Type.Prim, a.Val); ok {
+				a.Default, a.HasDef = d, true
+			}
+		}
 		res.Type.Object = append(res.Type.Object, &Field{Name: name, Att: a})
 		switch where {
 		case "header":
